@@ -527,6 +527,11 @@ fn recover(
         }
     }
 
+    // The WAL may only be dropped once the updates applied above are durable. Otherwise a power
+    // loss right after the truncation would leave the manifest pointing at a state whose pages
+    // are neither in the HT file nor in the WAL.
+    ht_fd.sync_all()?;
+
     // Finally, we collapse the WAL file and fsync.
     writeout::truncate_wal(wal_fd, true)?;
 
